@@ -575,6 +575,8 @@ pub(super) enum View {
 }
 #[derive(Clone, Copy, PartialEq, Eq)]
 pub(super) struct Model {
+    /// slot of the id the record is filed under today (what a lazy load reads)
+    pub rec_slot: usize,
     /// the store/cookie know this session already (the request came with a cookie, or a sync
     /// already persisted it)
     pub known: bool,
@@ -587,6 +589,7 @@ pub(super) struct Model {
 
 pub(super) fn abs(sh: &Shape) -> Model {
     Model {
+        rec_slot: slot_n(sh.old),
         known: sh.idk != IdK::NewlyGenerated,
         cycled: sh.idk == IdK::ToBeRenamed,
         client: sh.cmap,
@@ -605,7 +608,7 @@ impl Model {
     /// record filed under the id the request came in with.
     pub fn look(&mut self, db: &Db, allow_missing: bool) {
         if self.view == View::NotLooked {
-            let r = &db.recs[0];
+            let r = &db.recs[self.rec_slot];
             if r.present {
                 self.view = View::Present(r.state);
             } else if allow_missing {
@@ -963,15 +966,22 @@ pub(super) fn check_synced(w: &World, s: &Session<'_>, ok: bool) {
     let m = &w.model;
     let db = w.db.borrow();
     let db0 = &w.db0;
-    let cur = if w.sh.cur == ID_N { 1 } else { 0 };
+    let o = slot_n(w.sh.old);
+    let cur = slot_n(w.sh.cur);
     let never_skip = w.cfg.state.server_state_creation == ServerStateCreation::NeverSkip;
-    assert!(db.recs[2] == db0[2], "sync touched the record of an unrelated session");
-    assert!(!db.recs[3].present, "sync wrote under an id nobody holds");
+    // records filed under ids that are neither the session's old nor its new id are never touched
+    let mut k = 0;
+    while k < 4 {
+        if k != o && k != cur {
+            assert!(db.recs[k] == db0[k], "sync touched the record of an unrelated session");
+        }
+        k += 1;
+    }
     if !ok {
         // The one documented failure: the id was cycled without ever looking at the state and
         // the record to rename is not there (pinned by the crate's own test
         // `id_cycling_fails_if_the_old_state_record_is_gone_and_it_had_not_been_loaded_previously`).
-        let documented = m.view == View::NotLooked && m.cycled && !db0[0].present;
+        let documented = m.view == View::NotLooked && m.cycled && !db0[o].present;
         // with the expiry race there is one more: the ttl refresh of a loaded, unchanged record that
         // is no longer there has nothing to fall back to (no values would be lost: they are unchanged)
         let refresh_of_vanished = w.raced && w.sh.ssk == SsK::Unchanged && w.sh.idk == IdK::Existing;
@@ -982,18 +992,18 @@ pub(super) fn check_synced(w: &World, s: &Session<'_>, ok: bool) {
     match m.view {
         View::NotLooked => {
             if m.cycled {
-                assert!(db0[0].present, "renaming a record that is not there must fail, not succeed silently");
-                assert!(db.recs[1].present && db.recs[1].state == db0[0].state, "the record did not follow the session to its new id");
-                assert!(!db.recs[0].present, "after cycle_id the state is still reachable under the old id");
+                assert!(db0[o].present, "renaming a record that is not there must fail, not succeed silently");
+                assert!(db.recs[cur].present && db.recs[cur].state == db0[o].state, "the record did not follow the session to its new id");
+                assert!(!db.recs[o].present, "after cycle_id the state is still reachable under the old id");
             } else {
-                assert!(db.recs[0] == db0[0] && db.recs[1] == db0[1], "sync wrote to the store although the state was never looked at");
+                assert!(recs_eq(&db.recs, db0), "sync wrote to the store although the state was never looked at");
             }
         }
         View::Present(map) => {
             assert!(db.recs[cur].present, "the server-side values were not persisted: the next request would find no record");
             assert!(db.recs[cur].state == map, "the record under the cookie's id does not hold the values the request ended with");
             if m.cycled {
-                assert!(!db.recs[0].present, "after cycle_id the state is still reachable under the old id");
+                assert!(!db.recs[o].present, "after cycle_id the state is still reachable under the old id");
             }
         }
         View::Absent => {
@@ -1005,16 +1015,13 @@ pub(super) fn check_synced(w: &World, s: &Session<'_>, ok: bool) {
                 assert!(db.recs[cur].present || !m.cycled, "NeverSkip: no record was created under the new id of a session whose id was cycled");
             }
             if m.cycled {
-                assert!(!db.recs[0].present, "after cycle_id a record exists under the old id");
+                assert!(!db.recs[o].present, "after cycle_id a record exists under the old id");
             }
         }
         View::Deleted => {
             assert!(!db.recs[cur].present, "a deleted/invalidated session still has a record under the cookie's id");
             if m.known {
-                assert!(!db.recs[0].present, "a deleted/invalidated session still has its record");
-            }
-            if !m.cycled {
-                assert!(db.recs[1] == db0[1], "sync touched an unrelated id");
+                assert!(!db.recs[o].present, "a deleted/invalidated session still has its record");
             }
         }
     }
@@ -1211,7 +1218,7 @@ fn finalize_body(only: IdK) -> (u8, bool, bool) {
     let m = w.model;
     vtrace_op("finalize", 0, NONE);
     let r = s.finalize();
-    let cur = if w.sh.cur == ID_N { 1 } else { 0 };
+    let cur = slot_n(w.sh.cur);
     match &r {
         Err(_) => check_synced(&w, &s, false),
         Ok(cookie) => {
@@ -1297,6 +1304,92 @@ fn c11_finalize_new() {
 
 
 // =============================================================================================
+// Cross-check of the induction: two operations and a sync in ONE query (exploratory)
+// =============================================================================================
+
+/// one in-request operation on both the real session and the model
+fn apply_any_op(w: &World, s: &mut Session<'static>, m: &mut Model) {
+    let (ki, k) = any_key();
+    let v = any_value();
+    let op: u8 = nd::u8_below(9);
+    vtrace_op(["server_insert", "server_remove", "server_clear", "delete", "cycle_id", "invalidate", "client_insert", "client_remove", "server_get"][op as usize], ki, if op == 0 || op == 6 { v } else { NONE });
+    // in-request operations never write to the store: a snapshot is what the model reads
+    let db = Db { recs: w.db.borrow().recs, calls: 0, expire_o_now: false };
+    match op {
+        0 => {
+            let got = s.insert_raw(k, dec(v).unwrap()).map(enc);
+            let want = m.server_insert(&db, w.allow, ki, v);
+            assert!(matches!(got, Ok(g) if g == want), "history: insert_raw result");
+        }
+        1 => {
+            let got = s.remove_raw(k).map(enc);
+            let want = m.server_remove(&db, w.allow, ki);
+            assert!(matches!(got, Ok(g) if g == want), "history: remove_raw result");
+        }
+        2 => {
+            assert!(s.clear().is_ok());
+            m.server_clear(&db, w.allow);
+        }
+        3 => {
+            s.delete();
+            m.delete();
+        }
+        4 => {
+            s.cycle_id();
+            m.cycle_id();
+        }
+        5 => {
+            s.invalidate();
+            m.invalidate();
+        }
+        6 => {
+            let got = enc(s.client_mut().insert_raw(k, dec(v).unwrap()));
+            assert!(got == m.client_insert(ki, v), "history: client insert result");
+        }
+        7 => {
+            let got = enc(s.client_mut().remove_raw(k));
+            assert!(got == m.client_remove(ki), "history: client remove result");
+        }
+        _ => {
+            let got = s.get_raw(k).map(|o| enc(o.copied()));
+            let want = m.server_get(&db, w.allow, ki);
+            assert!(matches!(got, Ok(g) if g == want), "history: get_raw result");
+        }
+    }
+    let sh = shape_of(s);
+    let a = abs(&sh);
+    assert!(a.client == m.client && a.view == m.view && a.invalidated == m.invalidated && a.known == m.known && a.cycled == m.cycled, "history: the session state differs from the reference model after an operation");
+    assert_inv(&sh, &w.db.borrow());
+}
+
+// @tier thorough
+// @exploratory 1
+// @obligation cross-check of the inductive argument: from every INV state, TWO arbitrary in-request operations followed by sync() in one query agree with the reference model at every step and satisfy the sync post-condition (a time-out is recorded and changes nothing; a counterexample that replays natively is reported like any other)
+// @bounds as c11_sync_existing; 9 operations x 9 operations
+// @functions Session::{insert_raw,remove_raw,clear,delete,cycle_id,invalidate,get_raw,sync}, ClientSessionStateMut::{insert_raw,remove_raw}
+// @timeout 7200
+// @mem 40
+#[kani::proof]
+#[kani::unwind(4)]
+#[kani::stub(std::fmt::format, fmt_stub)]
+fn c11_history_2() {
+    let w0 = any_world(default_cookie());
+    let mut s = build(&w0.sh, w0.store, w0.cfg);
+    let mut m = w0.model;
+    apply_any_op(&w0, &mut s, &mut m);
+    apply_any_op(&w0, &mut s, &mut m);
+    let sh = shape_of(&s);
+    vtrace_op("sync", 0, NONE);
+    let r = s.sync();
+    let ok = r.is_ok();
+    std::mem::forget(r);
+    let w = World { sh, model: m, ..w0 };
+    check_synced(&w, &s, ok);
+    kani::cover!(ok && sh.idk == IdK::ToBeRenamed && sh.cur == ID_F, "two operations ending in a cycled id");
+    std::mem::forget(s);
+}
+
+// =============================================================================================
 // The next request (S3): cookie -> IncomingSession::extract -> Session::new
 // =============================================================================================
 
@@ -1362,5 +1455,5 @@ mod native_search {
     macro_rules! searches { ($($h:ident),*) => { $( #[test] fn $h() { nd::search(stringify!($h), super::$h, reset) } )* } }
     searches!(c11_step_server_get, c11_step_server_insert, c11_step_server_remove, c11_step_server_lifecycle, c11_step_client_ops,
               c11_sync_existing, c11_sync_renamed, c11_sync_new, c11_sync_race_renamed, c11_sync_race_existing,
-              c11_finalize_existing, c11_finalize_renamed, c11_finalize_new, c11_new_from_cookie);
+              c11_finalize_existing, c11_finalize_renamed, c11_finalize_new, c11_new_from_cookie, c11_history_2);
 }
